@@ -479,8 +479,10 @@ SProgram(m, path, planted) == LET sd == SSide(m, planted) IN sd.g \o Wrap(path, 
 \* placement: start alone, plus a seeded 1/smod sample of the other tops and of the chains of length 2
 SHash(m, p, seed) ==
   ((((m[1] * 37 + m[2] * 11 + m[3] * 5 + m[4]) % 9973) * 101 + CtxNo(p[1]) * 53 + (IF Len(p) > 1 THEN CtxNo(p[2]) * 17 ELSE 7) + seed) % 100003)
-SChains(m, seed, smod) ==
-  {<<"start">>} \cup {p \in Chains("S", "-", 1, Tops) \cup Chains("S", "-", 2, Tops) : SHash(m, p, seed) % smod = 0}
+SPaths == Chains("S", "-", 1, Tops) \cup Chains("S", "-", 2, Tops)
+\* sp: the set SPaths, handed in by callers that walk over many keys (TLC re-evaluates SPaths on every reference)
+SChainsP(m, seed, smod, sp) == {<<"start">>} \cup {p \in sp : SHash(m, p, seed) % smod = 0}
+SChains(m, seed, smod) == SChainsP(m, seed, smod, SPaths)
 
 (* Spec-level sanity *)
 ShareSane ==
